@@ -145,7 +145,7 @@ def run(pid, tier, seed):
     if not ok:
         chk.violation("go_build.txt", "harness does not build against /repo:\n" + blog[-4000:], no_input=True)
         return chk.finish()
-    n_step, n_sync, n_run = {"quick": (350, 350, 70), "thorough": (20000, 20000, 1500)}[tier]
+    n_step, n_sync, n_run = {"quick": (300, 300, 70), "thorough": (5000, 5000, 1000)}[tier]
     d = chk.rundir()
     files = {}
     for cmd, n, s in (("disc-step", n_step, seed), ("disc-sync", n_sync, seed + 1), ("disc-run", n_run, seed + 2)):
